@@ -37,12 +37,30 @@ ATTR = {
     ('tcfg', 'region_1_length'): ('t_e1', 'int'), ('tcfg', 'region_3_length'): ('t_e3', 'int'),
     ('variant', 'pos'): ('v_pos', 'int'), ('variant', 'ref'): ('v_ref_s', 'str'), ('variant', 'alt'): ('v_alt_s', 'str'),
     ('vstat', 'pos'): ('vpos', 'int'), ('vstat', 'ref_len'): ('vrl', 'int'), ('vstat', 'alt_len'): ('val', 'int'),
+    ('po', 'pos'): ('fst', 'int'), ('po', 'offset'): ('snd', 'int'),
 }
+# dataclasses built positionally -> (type tag, field names in order, field types); the field order is re-read from the source (module_facts)
+CTOR = {'PosOffset': ('po', ['pos', 'offset'], ['int', 'int'])}
 # python annotation -> model type tag
 ANNOT = {'int': 'int', 'bool': 'bool', 'Strand': 'strand', 'Exon': 'exon', 'UIntRange': 'range', 'IntPatternBuilder': 'pt', 'CdsSeq': 'cds',
-         'TargetonConfig': 'tcfg', 'str': 'str', 'str | None': 'ostr', 'VariantType': 'vtype', 'Variant': 'variant', 'VarStats': 'vstat'}
+         'TargetonConfig': 'tcfg', 'str': 'str', 'str | None': 'ostr', 'VariantType': 'vtype', 'Variant': 'variant', 'VarStats': 'vstat',
+         'list[VarStats]': 'list:vstat', 'Iterable[VarStats]': 'list:vstat', 'list[PosOffset]': 'list:po', 'array': 'list:int'}
 COQ_TYPE = {'int': 'Z', 'bool': 'bool', 'strand': 'strand', 'exon': 'exon', 'range': 'range', 'pt': 'pt', 'cds': 'cds_seq', 'tcfg': 'tcfg', 'unit': 'unit',
-            'str': 'string', 'ostr': '(option string)', 'vtype': 'vtype', 'strenum': 'string', 'variant': 'variant', 'vstat': 'vstat'}
+            'str': 'string', 'ostr': '(option string)', 'vtype': 'vtype', 'strenum': 'string', 'variant': 'variant', 'vstat': 'vstat', 'po': '(Z * Z)'}
+
+
+def coq_type(t: str) -> str:
+    if t.startswith('list:'):
+        return f'(list {coq_type(t[5:])})'
+    if t.startswith('option:'):
+        return f'(option {coq_type(t[7:])})'
+    if t.startswith('tuple:'):
+        return '(' + ' * '.join(coq_type(x) for x in t[6:].split(',')) + ')'
+    if t not in COQ_TYPE:
+        raise TransError(f'no Coq type for {t}')
+    return COQ_TYPE[t]
+
+
 # members of the IntEnum VariantType -> constructors of the model's vtype
 VTYPE_MEMBERS = {'INSERTION': 'VIns', 'DELETION': 'VDel', 'SUBSTITUTION': 'VSub', 'UNKNOWN': 'VUnknown'}
 
@@ -71,6 +89,8 @@ class Translator:
         self.str_enums: dict[str, dict[str, str]] = {}    # string Enum classes: class -> {member: value}
         self.nodes: dict[str, ast.FunctionDef] = {}       # translated functions by call key (for the format-only check)
         self.noreturn: set[str] = set()
+        self.loops: list[dict] = []                       # enclosing `for` loops of the statement being translated
+        self.ctors: set[str] = set()                      # dataclass constructors whose field order was confirmed in the source
 
     # ------------------------------------------------------------ expressions
     def tmp(self):
@@ -107,6 +127,21 @@ class Translator:
                 else:
                     raise TransError('f-string piece')
             return '(' + ' ++ '.join(parts or ['""']) + ')%string', 'str'
+        if isinstance(e, ast.List):
+            if not e.elts:
+                return '[]', 'list:?'
+            parts = [self.expr(x, env, binds) for x in e.elts]
+            if len({t for _, t in parts}) != 1:
+                raise TransError('list of mixed types')
+            return '[' + '; '.join(p for p, _ in parts) + ']', 'list:' + parts[0][1]
+        if isinstance(e, ast.Subscript):
+            v, t = self.expr(e.value, env, binds)
+            i, ti = self.expr(e.slice, env, binds)
+            if not t.startswith('list:') or t == 'list:?' or ti != 'int':
+                raise TransError('subscript is only translated for an integer index into a list')
+            x = self.tmp()
+            binds.append((x, f'py_index {v} {i}'))      # negative indices count from the end, IndexError outside
+            return x, t[5:]
         if isinstance(e, ast.Tuple):
             parts = [self.expr(x, env, binds) for x in e.elts]
             return '(' + ', '.join(p for p, _ in parts) + ')', 'tuple:' + ','.join(t for _, t in parts)
@@ -120,6 +155,8 @@ class Translator:
                 return f'(sempty {v})', 'bool'
             if isinstance(e.op, ast.Not) and t == 'ostr':
                 return f'(onull {v})', 'bool'      # None or the empty string
+            if isinstance(e.op, ast.Not) and t.startswith('list:'):
+                return f'(lempty {v})', 'bool'
             raise TransError('unary operator')
         if isinstance(e, ast.BinOp):
             a, ta = self.expr(e.left, env, binds)
@@ -257,8 +294,36 @@ class Translator:
                 if any(t != 'int' for _, t in a3):
                     raise TransError('range over non-integers')
                 return f'(py_range {a3[0][0]} {a3[1][0]} {a3[2][0]})', 'list:int'
+            if isinstance(f, ast.Name) and f.id == 'sum' and len(e.args) == 1 and isinstance(e.args[0], ast.GeneratorExp):
+                g = e.args[0]
+                if len(g.generators) != 1 or g.generators[0].ifs or g.generators[0].is_async or not isinstance(g.generators[0].target, ast.Name):
+                    raise TransError('sum over a generator with filters or several loops')
+                it, tit = self.expr(g.generators[0].iter, env, binds)
+                if not tit.startswith('list:') or tit == 'list:?':
+                    raise TransError('sum over a non-list')
+                var = g.generators[0].target.id
+                env2 = dict(env)
+                env2[var] = (cname(var), tit[5:])
+                inner = []
+                v, t = self.expr(g.elt, env2, inner)
+                if t != 'int':
+                    raise TransError('sum of non-integers')
+                x = self.tmp()
+                binds.append((x, f'mapM (fun {cname(var)} => {self.wrap(inner, "Ok " + v)}) {it}'))
+                return f'(zsum {x})', 'int'
             args = [self.expr(x, env, binds) for x in e.args]
             if isinstance(f, ast.Name):
+                if f.id in self.ctors:
+                    tag, _, ftypes = CTOR[f.id]
+                    if [t for _, t in args] != ftypes:
+                        raise TransError(f'constructor {f.id}: argument types')
+                    return '(' + ', '.join(a for a, _ in args) + ')', tag
+                if f.id == 'get_u8_array' and len(args) == 1 and args[0][1] == 'int' and 'get_u8_array' in getattr(self, 'builtins', ()):
+                    x = self.tmp()
+                    binds.append((x, f'u8_zeros {args[0][0]}'))
+                    return x, 'list:int'
+                if f.id == 'len' and len(args) == 1 and args[0][1].startswith('list:'):
+                    return f'(zlen {args[0][0]})', 'int'
                 if f.id == 'abs' and len(args) == 1:
                     return f'(Z.abs {args[0][0]})', 'int'
                 if f.id in ('max', 'min') and len(args) == 2:
@@ -312,6 +377,8 @@ class Translator:
             return f'(negb (sempty {v}))'
         if t == 'ostr':
             return f'(negb (onull {v}))'
+        if t.startswith('list:'):
+            return f'(negb (lempty {v}))'
         raise TransError(f'truth value of a {t}')
 
     @staticmethod
@@ -370,6 +437,12 @@ class Translator:
         """Translate a statement list that ends in return / raise on every path -> coq term of type result T, and T."""
         stmts = [s for s in stmts if not self.is_docstring(s)]
         if not stmts:
+            if self.loops:
+                # the end of a loop body: hand the accumulators to the next iteration
+                lp = self.loops[-1]
+                lp['tails'].append([env[a][1] for a in lp['accs']])
+                tup = self.acc_tuple([env[a][0] for a in lp['accs']])
+                return (f'Ok (inl {tup})' if lp['exit'] else f'Ok {tup}'), 'acc'
             if self.procedure:
                 return 'Ok tt', 'unit'
             raise TransError('a path without return')
@@ -377,6 +450,16 @@ class Translator:
         if isinstance(st, ast.Return):
             if st.value is None:
                 raise TransError('bare return')
+            if self.loops:
+                # `return` inside a loop body: leaves every enclosing loop (only one level is translated)
+                if len(self.loops) != 1 or not self.loops[-1]['exit']:
+                    raise TransError('return inside nested loops')
+                if isinstance(st.value, ast.Constant) and st.value.value is None:
+                    raise TransError('return None inside a loop')
+                binds = []
+                v, t = self.expr(st.value, env, binds)
+                self.loops[-1]['rets'].append(t)
+                return self.wrap(binds, f'Ok (inr (Some {v}))' if self.wrap_some else f'Ok (inr {v})'), 'acc'
             if isinstance(st.value, ast.Constant) and st.value.value is None:
                 return 'Ok None', 'option'
             binds = []
@@ -422,6 +505,50 @@ class Translator:
             return f'{self.fns[st.value.func.id].coq_name}', None       # a call that never returns: the rest is dead
         if isinstance(st, ast.AnnAssign) and isinstance(st.target, ast.Name) and st.value is not None:
             st = ast.Assign(targets=[st.target], value=st.value)
+        if isinstance(st, ast.AugAssign) and isinstance(st.target, ast.Name) and isinstance(st.op, (ast.Add, ast.Sub)):
+            name = st.target.id
+            if name not in env or env[name][1] != 'int':
+                raise TransError('augmented assignment to a non-integer')
+            binds = []
+            v, t = self.expr(st.value, env, binds)
+            if t != 'int':
+                raise TransError('augmented assignment of a non-integer')
+            env2 = dict(env)
+            env2[name] = (cname(name), 'int')
+            body, tb = self.block(rest, env2)
+            op = '+' if isinstance(st.op, ast.Add) else '-'
+            return self.wrap(binds, f'let {cname(name)} := ({env[name][0]} {op} {v}) in {body}'), tb
+        if isinstance(st, ast.Expr) and isinstance(st.value, ast.Call) and isinstance(st.value.func, ast.Attribute) and st.value.func.attr == 'append' \
+                and isinstance(st.value.func.value, ast.Name) and len(st.value.args) == 1 and not st.value.keywords:
+            name = st.value.func.value.id
+            if name not in env or not env[name][1].startswith('list:'):
+                raise TransError('append to a non-list')
+            binds = []
+            v, t = self.expr(st.value.args[0], env, binds)
+            tl = env[name][1]
+            if tl != 'list:?' and tl != 'list:' + t:
+                raise TransError(f'append of a {t} to a {tl}')
+            env2 = dict(env)
+            env2[name] = (cname(name), 'list:' + t)
+            body, tb = self.block(rest, env2)
+            return self.wrap(binds, f'let {cname(name)} := ({env[name][0]} ++ [{v}]) in {body}'), tb
+        if isinstance(st, ast.Assign) and len(st.targets) == 1 and isinstance(st.targets[0], ast.Subscript) and isinstance(st.targets[0].value, ast.Name):
+            # a[i] = <byte literal> on an array('B') (any other value could raise OverflowError)
+            name = st.targets[0].value.id
+            if name not in env or env[name][1] != 'list:int':
+                raise TransError('item assignment outside an integer array')
+            if not (isinstance(st.value, ast.Constant) and isinstance(st.value.value, int) and not isinstance(st.value.value, bool) and 0 <= st.value.value <= 255):
+                raise TransError('item assignment of something other than a byte literal')
+            binds = []
+            i, ti = self.expr(st.targets[0].slice, env, binds)
+            if ti != 'int':
+                raise TransError('item assignment at a non-integer index')
+            env2 = dict(env)
+            env2[name] = (cname(name), 'list:int')
+            body, tb = self.block(rest, env2)
+            return self.wrap(binds, f'do {cname(name)} <- py_set {env[name][0]} {i} {st.value.value}; {body}'), tb
+        if isinstance(st, ast.For):
+            return self.for_loop(st, rest, env)
         if isinstance(st, ast.Assign) and len(st.targets) == 1 and isinstance(st.targets[0], ast.Name):
             binds = []
             v, t = self.expr(st.value, env, binds)
@@ -474,6 +601,119 @@ class Translator:
             return self.wrap(binds, term), t
         raise TransError(f'statement {type(st).__name__}')
 
+    @staticmethod
+    def acc_tuple(names):
+        if not names:
+            return 'tt'
+        return names[0] if len(names) == 1 else '(' + ', '.join(names) + ')'
+
+    @staticmethod
+    def acc_pattern(names):
+        if not names:
+            return '_'
+        return names[0] if len(names) == 1 else "'(" + ', '.join(names) + ')'
+
+    def assigned(self, stmts, out):
+        """Names (re)bound by a statement list, in order of first appearance."""
+        def add(n):
+            if n not in out:
+                out.append(n)
+        for st in stmts:
+            if isinstance(st, (ast.Assign, ast.AnnAssign, ast.AugAssign)):
+                targets = st.targets if isinstance(st, ast.Assign) else [st.target]
+                for t in targets:
+                    if isinstance(t, ast.Name):
+                        add(t.id)
+                    elif isinstance(t, ast.Subscript) and isinstance(t.value, ast.Name):
+                        add(t.value.id)
+                    else:
+                        raise TransError('assignment target inside a loop')
+            elif isinstance(st, ast.Expr) and isinstance(st.value, ast.Call) and isinstance(st.value.func, ast.Attribute) \
+                    and isinstance(st.value.func.value, ast.Name) and st.value.func.attr == 'append':
+                add(st.value.func.value.id)
+            elif isinstance(st, ast.If):
+                self.assigned(st.body, out)
+                self.assigned(st.orelse, out)
+            elif isinstance(st, ast.For):
+                if not isinstance(st.target, ast.Name):
+                    raise TransError('loop target')
+                add(st.target.id)
+                self.assigned(st.body, out)
+            elif isinstance(st, (ast.Return, ast.Raise, ast.Assert, ast.Expr, ast.Pass)):
+                if isinstance(st, ast.Expr) and not self.is_docstring(st):
+                    raise TransError('expression statement inside a loop')
+            else:
+                raise TransError(f'statement {type(st).__name__} inside a loop')
+        return out
+
+    def for_loop(self, st, rest, env):
+        """for x in <list or range>: body  ->  a monadic fold over the variables the body rebinds (fold_m), or, when the body
+        can `return`, a fold that can leave early (fold_x).  Variables first bound inside the body do not survive an iteration."""
+        if st.orelse or not isinstance(st.target, ast.Name):
+            raise TransError('for loop with else / structured target')
+        binds = []
+        it = st.iter
+        if isinstance(it, ast.Call) and isinstance(it.func, ast.Name) and it.func.id == 'range' and not it.keywords and len(it.args) in (1, 2):
+            a = [self.expr(x, env, binds) for x in it.args]
+            if any(t != 'int' for _, t in a):
+                raise TransError('range over non-integers')
+            lst, elem = (f'(py_range 0 {a[0][0]} 1)' if len(a) == 1 else f'(py_range {a[0][0]} {a[1][0]} 1)'), 'int'
+        else:
+            lst, tl = self.expr(it, env, binds)
+            if not tl.startswith('list:') or tl == 'list:?':
+                raise TransError('for loop over something other than a list or a range')
+            elem = tl[5:]
+        var = st.target.id
+        names = self.assigned(st.body, [])
+        if var in names:
+            raise TransError('loop variable rebound in the body')
+        accs = [n for n in names if n in env]
+        has_ret = any(isinstance(n, ast.Return) for b in st.body for n in ast.walk(b))
+        if has_ret and self.loops:
+            raise TransError('return inside nested loops')
+        types = {a: env[a][1] for a in accs}
+        for _ in range(4):
+            loop_env = dict(env)
+            for a in accs:
+                loop_env[a] = (cname(a), types[a])
+            loop_env[var] = (cname(var), elem)
+            self.loops.append({'accs': accs, 'exit': has_ret, 'tails': [], 'rets': []})
+            try:
+                body, _tb = self.block(st.body, loop_env)
+            finally:
+                info = self.loops.pop()
+            new = dict(types)
+            for tail in info['tails']:
+                for a, t in zip(accs, tail):
+                    if new[a] == 'list:?' and t.startswith('list:'):
+                        new[a] = t
+                    elif t != new[a] and t != 'list:?':
+                        raise TransError(f'loop variable {a} changes type: {new[a]} / {t}')
+            if new == types:
+                break
+            types = new
+        else:
+            raise TransError('loop accumulator types do not settle')
+        env2 = dict(env)
+        for a in accs:
+            env2[a] = (cname(a), types[a])
+        env2.pop(var, None)
+        for n in names:
+            if n not in accs:
+                env2.pop(n, None)
+        k = self.tmp()
+        pat = self.acc_pattern([cname(a) for a in accs])
+        init = self.acc_tuple([env[a][0] for a in accs])
+        fn = f'(fun _acc {cname(var)} => let {pat} := _acc in {body})'
+        after, ta = self.block(rest, env2)
+        if has_ret:
+            tr = None
+            for t in info['rets']:
+                tr = self.join(tr, t)
+            term = f'do {k} <- fold_x {fn} {lst} {init}; match {k} with inr _v => Ok _v | inl _acc => let {pat} := _acc in {after} end'
+            return self.wrap(binds, term), self.join(tr, ta)
+        return self.wrap(binds, f'do {k} <- fold_m {fn} {lst} {init}; let {pat} := {k} in {after}'), ta
+
     def ends(self, stmts):
         last = [s for s in stmts if not self.is_docstring(s)][-1]
         if isinstance(last, (ast.Return, ast.Raise)):
@@ -511,6 +751,13 @@ class Translator:
                             members[st.targets[0].id] = st.value.value
                     if members:
                         self.str_enums[c.name] = members
+                if isinstance(c, ast.ClassDef) and c.name in CTOR:
+                    fields = [(st.target.id, ast.unparse(st.annotation)) for st in c.body if isinstance(st, ast.AnnAssign) and isinstance(st.target, ast.Name)]
+                    _, fnames, ftypes = CTOR[c.name]
+                    if [n for n, _ in fields] != fnames or [ANNOT.get(a) for _, a in fields] != ftypes \
+                            or any(isinstance(st, ast.FunctionDef) for st in c.body) or not any('dataclass' in ast.unparse(d) for d in c.decorator_list):
+                        raise TransError(f'dataclass {c.name}: fields {fields}')
+                    self.ctors.add(c.name)
                 if isinstance(c, ast.ClassDef) and c.name == 'VariantType':
                     vals = {}
                     for st in c.body:
@@ -579,24 +826,19 @@ class Translator:
             finally:
                 self.wrap_some = False
         self.fns[key] = Fn(coq_name, params, ret)
-        sig = ' '.join(f'({cname(n)} : {COQ_TYPE[t]})' for n, t in params)
+        sig = ' '.join(f'({cname(n)} : {coq_type(t)})' for n, t in params)
         self.out.append(f'Definition {coq_name} {sig} : result {self.coq_ret(ret)} :=\n  {body}.\n')
 
     @staticmethod
     def coq_ret(t):
-        if t.startswith('tuple:'):
-            return '(' + ' * '.join(COQ_TYPE[x] for x in t[6:].split(',')) + ')'
-        if t == 'list:int':
-            return '(list Z)'
-        if t.startswith('option:'):
-            return f'(option {COQ_TYPE[t[7:]]})'
-        return COQ_TYPE[t]
+        return coq_type(t)
 
 
-def translate(sources: dict[str, str], targets: list[tuple[str, str, str, str | None]], wanted_consts: tuple = ()) -> str:
+def translate(sources: dict[str, str], targets: list[tuple[str, str, str, str | None]], wanted_consts: tuple = (), builtins: tuple = ()) -> str:
     """sources: {module: text}; targets: [(module, python name or Class.name, coq name, type tag of self or None)] in dependency order."""
     tr = Translator()
     tr.wanted_consts = wanted_consts
+    tr.builtins = builtins
     trees = {m: ast.parse(s) for m, s in sources.items()}
     tr.module_facts(trees)
     for mod, pyname, coq_name, self_type in targets:
